@@ -166,6 +166,9 @@ func (g *Graph) Dominators(b int) []int {
 			break
 		}
 		b = g.idom[b]
+		if b < 0 {
+			break // not reachable in this (pruned) graph
+		}
 	}
 	for i, j := 0, len(ds)-1; i < j; i, j = i+1, j-1 {
 		ds[i], ds[j] = ds[j], ds[i]
